@@ -391,11 +391,21 @@ fn run_one(rt: &tokio::runtime::Runtime, plan: &Plan) -> RunRecord {
         h2.await;
         verif::event("handle_resolved", 0u64, 0u64);
     });
-    sleep_until(sh.t0 + Duration::from_millis(plan.call_at_ms));
-    let mode = match plan.timeout_ms {
+    let mode_of = |plan: &Plan| match plan.timeout_ms {
         Some(ms) => ShutdownMode::Graceful { timeout: plan::timeout_duration(ms) },
         None => ShutdownMode::Forced,
     };
+    let second = plan.second_call_after_ms.map(|d| {
+        let (h3, at, mode2) = (handle.clone(), sh.t0 + Duration::from_millis(plan.call_at_ms + d), mode_of(plan));
+        rt.spawn(async move {
+            tokio::time::sleep_until(tokio::time::Instant::from_std(at)).await;
+            verif::event("shutdown2_called", 0u64, 0u64);
+            h3.shutdown(mode2).await;
+            verif::event("shutdown2_resolved", 0u64, 0u64);
+        })
+    });
+    sleep_until(sh.t0 + Duration::from_millis(plan.call_at_ms));
+    let mode = mode_of(plan);
     let wd = WATCHDOG + Duration::from_millis(plan.timeout_ms.unwrap_or(0).min(5_000));
     verif::event("shutdown_called", 0u64, 0u64);
     rec.resolved = rt.block_on(async { tokio::time::timeout(wd, handle.shutdown(mode)).await.is_ok() });
@@ -405,6 +415,9 @@ fn run_one(rt: &tokio::runtime::Runtime, plan: &Plan) -> RunRecord {
     *sh.resolved.lock().unwrap() = Some(rec.resolved.then(Instant::now));
     sh.resolved_cv.notify_all();
     rec.handle_resolved = rt.block_on(async { tokio::time::timeout(wd, awaiter).await.is_ok() });
+    if let Some(t) = second {
+        let _ = rt.block_on(async { tokio::time::timeout(wd, t).await });
+    }
     // the workers outlive the coordinator (their own timeout starts later, or they are blocked): wait for them,
     // so that this run's log is complete and does not leak into the next run's
     let t_wait = Instant::now();
